@@ -159,6 +159,15 @@ func (in *usInst) step(l []entry, full bool, perms *int) (string, string) {
 	}
 	*perms++
 	gotVal := snapSet(out.Validators)
+	mutated := func() (string, string) {
+		if snapSet(in.st.Validators) != inVal || snapSet(in.st.LastValidators) != inLast {
+			return keyUSMutate, fmt.Sprintf("input status changed: validators %s -> %s, last validators %s -> %s", inVal, snapSet(in.st.Validators), inLast, snapSet(in.st.LastValidators))
+		}
+		return "", ""
+	}
+	if k, w := mutated(); k != "" {
+		return k, w
+	}
 	if full {
 		var k, w string
 		vk.Permutations(len(l), func(p []int) bool {
@@ -200,8 +209,8 @@ func (in *usInst) step(l []entry, full bool, perms *int) (string, string) {
 			o3.LastValidators.IncrementAccum(1)
 		}
 	}
-	if snapSet(in.st.Validators) != inVal || snapSet(in.st.LastValidators) != inLast {
-		return keyUSMutate, fmt.Sprintf("input status changed: validators %s -> %s, last validators %s -> %s", inVal, snapSet(in.st.Validators), inLast, snapSet(in.st.LastValidators))
+	if k, w := mutated(); k != "" {
+		return k, w
 	}
 	if !sortedStrict(out.Validators) {
 		return keySetSorted, "next validators not sorted: " + gotVal
